@@ -8,6 +8,7 @@ import (
 	"net/url"
 	"os"
 	"reflect"
+	"regexp"
 	"sort"
 	"strings"
 	"testing"
@@ -291,6 +292,9 @@ func gen(t *rapid.T) Case {
 			s := sites[rapid.IntRange(0, len(sites)-1).Draw(t, "site")]
 			kind := rapid.SampledFrom([]string{"missing-name", "missing-file", "missing-pointer", "wrong-kind"}).Draw(t, "breakkind")
 			nr := breakRef(s.Ref, kind)
+			if kind == "wrong-kind" {
+				nr, kind = wrongKindRef(t, lay, s)
+			}
 			if nr != "" {
 				var v any
 				_ = json.Unmarshal([]byte(lay.Files[s.File]), &v)
@@ -302,6 +306,45 @@ func gen(t *rapid.T) Case {
 		}
 	}
 	return c
+}
+
+var reCompRef = regexp.MustCompile(`^([^#]*)#/components/([a-zA-Z]+)/([^/]+)$`)
+
+// wrongKindRef redirects a component reference to an existing, finished component of another kind
+// in the same target file. The second result names the pair ("wrong-kind:schemas->parameters").
+func wrongKindRef(t *rapid.T, lay *fsgen.Layout, s fsgen.RefSite) (string, string) {
+	m := reCompRef.FindStringSubmatch(s.Ref)
+	if m == nil {
+		return "", ""
+	}
+	tf := s.File
+	if m[1] != "" {
+		tf = fsgen.ResolvePath(s.File, m[1])
+	}
+	var doc map[string]any
+	if json.Unmarshal([]byte(lay.Files[tf]), &doc) != nil {
+		return "", ""
+	}
+	comps, _ := doc["components"].(map[string]any)
+	type cand struct{ sec, name string }
+	var cands []cand
+	for _, sec := range jv.Keys(comps) {
+		if sec == m[2] {
+			continue
+		}
+		entries, _ := comps[sec].(map[string]any)
+		for _, name := range jv.Keys(entries) {
+			e, _ := entries[name].(map[string]any)
+			if _, isRef := e["$ref"]; !isRef && e != nil {
+				cands = append(cands, cand{sec, name})
+			}
+		}
+	}
+	if len(cands) == 0 {
+		return "", ""
+	}
+	c := cands[rapid.IntRange(0, len(cands)-1).Draw(t, "wrongkind")]
+	return m[1] + "#/components/" + c.sec + "/" + c.name, "wrong-kind:" + m[2] + "->" + c.sec
 }
 
 func breakRef(ref, kind string) string {
